@@ -50,6 +50,13 @@ MenuI2 == {<<Uwc("i1", "", "any"), Teardown("")>>, <<Modify("i1", ""), Teardown(
 MenuI3 == {<<Create("")>>, <<Create(""), AddFin("f")>>}
 ProgramsIdem == {[a \in A3 |-> IF a = 1 THEN p1 ELSE IF a = 2 THEN p2 ELSE p3] : p1 \in MenuI1, p2 \in MenuI2, p3 \in MenuI3}
 
+(* C04: two callers applying the SAME non-idempotent mutation (counter + 1): both read the same base, compute the same result; *)
+(* the loser of the version race has to apply its increment on top of the winner's (two successes = two increments)          *)
+MenuS1 == {<<Uwc("t1", "", "any")>>, <<Modify("t1", "")>>, <<Uwc("t1", "", "running")>>}
+MenuS2 == {<<Uwc("t1", "", "any")>>, <<Modify("t1", "")>>, <<Uwc("t1", "", "any"), Uwc("t1", "", "any")>>}
+MenuS3 == {<<Create("")>>, <<Create(""), Uwc("t1", "", "any")>>}
+ProgramsSame == {[a \in A3 |-> IF a = 1 THEN p1 ELSE IF a = 2 THEN p2 ELSE p3] : p1 \in MenuS1, p2 \in MenuS2, p3 \in MenuS3}
+
 (* liveness configuration: the interfering actor ends with the finalizer removed *)
 ProgramsLive == {[a \in {1, 2} |-> IF a = 1 THEN <<Create(""), AddFin("f"), Tad("")>> ELSE p2] :
                    p2 \in {<<RemFin("f")>>, <<AddFin("g"), RemFin("g"), RemFin("f")>>, <<Teardown(""), RemFin("f")>>}}
